@@ -92,9 +92,10 @@ void pfx_table_init(struct pfx_table *t, pfx_update_fp fp)
 	t->update_fp = fp;
 }
 
-void spki_table_init(struct spki_table *t, spki_update_fp fp)
+int spki_table_init(struct spki_table *t, spki_update_fp fp)
 {
 	t->update_fp = fp;
+	return SPKI_SUCCESS; /* allocation never fails in this unit */
 }
 
 void pfx_table_free(struct pfx_table *t)
